@@ -112,17 +112,19 @@ struct Sess {
     vm: Vm,
     /// defined[k] = operation k bound p<k>
     defined: Vec<bool>,
+    /// global-environment slot of p<k> (stable once the variable exists)
+    slots: std::cell::RefCell<HashMap<usize, usize>>,
 }
 
-fn global(vm: &Vm, name: &str) -> Option<VCell> {
+fn global_slot(vm: &Vm, name: &str) -> Option<usize> {
     let sym = *vm.verif_heap().verif_symbol_table().get(name)?;
-    let slot = vm
-        .verif_globenv()
-        .verif_bindings()
-        .into_iter()
-        .find(|(s, _)| *s == sym)?
-        .1;
-    Some(vm.verif_globenv().get_slot(slot))
+    Some(
+        vm.verif_globenv()
+            .verif_bindings()
+            .into_iter()
+            .find(|(s, _)| *s == sym)?
+            .1,
+    )
 }
 
 #[derive(Clone, Copy, PartialEq, Eq, Hash, Debug)]
@@ -222,12 +224,27 @@ impl Sess {
         Sess {
             vm: Vm::new(),
             defined: vec![],
+            slots: Default::default(),
         }
+    }
+
+    /// start a new sequence in the same VM (pool variables are simply redefined)
+    fn reset(&mut self) {
+        self.defined.clear();
     }
 
     fn slot(&self, k: usize) -> Option<VCell> {
         if *self.defined.get(k)? {
-            global(&self.vm, &format!("p{}", k))
+            let cached = self.slots.borrow().get(&k).copied();
+            let slot = match cached {
+                Some(s) => s,
+                None => {
+                    let s = global_slot(&self.vm, &format!("p{}", k))?;
+                    self.slots.borrow_mut().insert(k, s);
+                    s
+                }
+            };
+            Some(self.vm.verif_globenv().get_slot(slot))
         } else {
             None
         }
@@ -417,13 +434,14 @@ struct Gen<'a> {
     alive: bool,
 }
 
+const VM_BATCH: usize = 25;
 const SYMS: [&str; 4] = ["a", "b", "c", "d"];
 
 impl<'a> Gen<'a> {
-    fn new(rng: &'a mut Rng) -> Gen<'a> {
+    fn new(rng: &'a mut Rng, sess: Sess) -> Gen<'a> {
         Gen {
             rng,
-            sess: Sess::new(),
+            sess,
             ops: vec![],
             steps: vec![],
             alive: true,
@@ -795,6 +813,297 @@ impl<'a> Gen<'a> {
         }
     }
 
+
+    // ---- C15
+
+    fn alpha_char(&mut self) -> u32 {
+        // 1-, 2-, 3- and 4-byte characters; case pairs, multi-character case images (ß, ŉ, İ, ﬁ),
+        // title case (ǅ), digits and white space outside ASCII, NUL. No sigma (see StringOps.lean).
+        const A: [u32; 34] = [
+            0x61, 0x5a, 0x30, 0x20, 0x6d, 0x7a, 0x41, 0x0, 0x7f, // 1 byte
+            0xe9, 0xc9, 0x3bb, 0x39b, 0xdf, 0x1c5, 0x130, 0x149, 0x663, 0xa0, 0xb5, // 2 bytes
+            0x20ac, 0xff21, 0xff41, 0xfb01, 0x2028, 0x1e9e, 0x3042, 0xd7ff, 0xe000, 0xfffd, // 3 bytes
+            0x1f436, 0x10400, 0x10428, 0x1d7d8, // 4 bytes
+        ];
+        *self.rng.pick(&A)
+    }
+
+    fn charish(&mut self) -> Arg {
+        let cs = self.slots_where(|k| k == Kind::CharV);
+        match self.rng.below(20) {
+            0 => self.any(),
+            1 | 2 | 3 if !cs.is_empty() => Arg::Pool(*self.rng.pick(&cs)),
+            _ => Arg::Char(self.alpha_char()),
+        }
+    }
+
+    fn strish(&mut self) -> Arg {
+        let ss = self.slots_where(|k| matches!(k, Kind::Str { .. }));
+        if ss.is_empty() || self.rng.chance(1, 25) {
+            self.any()
+        } else {
+            Arg::Pool(*self.rng.pick(&ss))
+        }
+    }
+
+    fn c15_setup(&mut self) {
+        let k = self.rng.range(2, 4);
+        for _ in 0..k {
+            match self.rng.below(8) {
+                0 => {
+                    let n = self.rng.range(0, 3);
+                    let c = Arg::Char(self.alpha_char());
+                    self.push("make-string", vec![Arg::Int(n.to_string()), c])
+                }
+                1 => {
+                    // a list / vector of characters for list->string, vector->string
+                    let m = self.rng.below(4);
+                    let args = (0..m).map(|_| Arg::Char(self.alpha_char())).collect();
+                    let name = if self.rng.chance(1, 2) { "list" } else { "vector" };
+                    self.push(name, args)
+                }
+                2 => {
+                    // a container aliasing an existing string (mutation must show through it)
+                    let a = self.strish();
+                    let b = self.strish();
+                    self.push("vector", vec![a, b])
+                }
+                _ => {
+                    let m = self.rng.below(6);
+                    let args = (0..m).map(|_| Arg::Char(self.alpha_char())).collect();
+                    self.push("string", args)
+                }
+            }
+        }
+    }
+
+    fn range_args(&mut self, len: usize, max: u64) -> Vec<Arg> {
+        let k = self.rng.below(max + 1);
+        (0..k).map(|_| self.index(len)).collect()
+    }
+
+    fn c15_op(&mut self) {
+        const OPS: [&str; 36] = [
+            "string-length", "string-ref", "string-set!", "substring", "string-copy", "string-fill!",
+            "string->list", "string->vector", "vector->string", "list->string", "string",
+            "make-string", "string-append", "string-cmp", "string-ci-cmp", "string-upcase",
+            "string-downcase", "string-foldcase", "char->integer", "integer->char", "char-class",
+            "char-upcase", "char-downcase", "char-foldcase", "char-cmp", "char-ci-cmp",
+            "string-set!", "string-fill!", "string-ref", "string-copy", "string-set!", "string->list",
+            "cons", "string-cmp", "string-fill!", "substring",
+        ];
+        const CMP: [&str; 5] = ["=?", "<?", ">?", "<=?", ">=?"];
+        let name = *self.rng.pick(&OPS);
+        match name {
+            "string-length" | "string->vector" | "string-upcase" | "string-downcase"
+            | "string-foldcase" => {
+                let s = self.strish();
+                self.push(name, vec![s])
+            }
+            "string-ref" => {
+                let s = self.strish();
+                let i = self.index(self.len_of(&s));
+                self.push(name, vec![s, i])
+            }
+            "string-set!" => {
+                let s = self.strish();
+                let i = self.index(self.len_of(&s));
+                let c = self.charish();
+                self.push(name, vec![s, i, c])
+            }
+            "substring" => {
+                let s = self.strish();
+                let len = self.len_of(&s);
+                let a = self.index(len);
+                let b = self.index(len);
+                self.push(name, vec![s, a, b])
+            }
+            "string-copy" | "string->list" => {
+                let s = self.strish();
+                let mut args = vec![s.clone()];
+                args.extend(self.range_args(self.len_of(&s), 2));
+                self.push(name, args)
+            }
+            "string-fill!" => {
+                let s = self.strish();
+                let c = self.charish();
+                let mut args = vec![s.clone(), c];
+                args.extend(self.range_args(self.len_of(&s), 2));
+                self.push(name, args)
+            }
+            "vector->string" => {
+                let vs = self.slots_where(|k| matches!(k, Kind::Vec { .. }));
+                let v = if vs.is_empty() || self.rng.chance(1, 15) {
+                    self.any()
+                } else {
+                    Arg::Pool(*self.rng.pick(&vs))
+                };
+                self.push(name, vec![v])
+            }
+            "list->string" => {
+                let ls = self.slots_where(|k| matches!(k, Kind::Pair { .. } | Kind::Nil));
+                let l = if ls.is_empty() || self.rng.chance(1, 15) {
+                    self.any()
+                } else {
+                    Arg::Pool(*self.rng.pick(&ls))
+                };
+                self.push(name, vec![l])
+            }
+            "string" => {
+                let m = self.rng.below(5);
+                let args = (0..m).map(|_| self.charish()).collect();
+                self.push(name, args)
+            }
+            "make-string" => {
+                let n = match self.rng.below(12) {
+                    0 => Arg::Int("-1".into()),
+                    1 => self.key(),
+                    _ => Arg::Int(self.rng.range(0, 4).to_string()),
+                };
+                let mut args = vec![n];
+                if self.rng.chance(3, 4) {
+                    args.push(self.charish());
+                }
+                self.push(name, args)
+            }
+            "string-append" => {
+                let m = self.rng.below(4);
+                let args = (0..m).map(|_| self.strish()).collect();
+                self.push(name, args)
+            }
+            "string-cmp" | "string-ci-cmp" => {
+                let pre = if name == "string-cmp" { "string" } else { "string-ci" };
+                let m = self.rng.range(1, 3);
+                let args = (0..m).map(|_| self.strish()).collect();
+                let op = format!("{}{}", pre, self.rng.pick(&CMP));
+                self.push(&op, args)
+            }
+            "char-cmp" | "char-ci-cmp" => {
+                let pre = if name == "char-cmp" { "char" } else { "char-ci" };
+                let m = self.rng.range(1, 3);
+                let args = (0..m).map(|_| self.charish()).collect();
+                let op = format!("{}{}", pre, self.rng.pick(&CMP));
+                self.push(&op, args)
+            }
+            "char->integer" | "char-upcase" | "char-downcase" | "char-foldcase" => {
+                let c = self.charish();
+                self.push(name, vec![c])
+            }
+            "char-class" => {
+                let c = self.charish();
+                let op = *self.rng.pick(&[
+                    "char-alphabetic?",
+                    "char-numeric?",
+                    "char-whitespace?",
+                    "char-upper-case?",
+                    "char-lower-case?",
+                ]);
+                self.push(op, vec![c])
+            }
+            "integer->char" => {
+                const NS: [i64; 16] = [
+                    0, 65, 0xd7ff, 0xd800, 0xdbff, 0xdc00, 0xdfff, 0xe000, 0xfffd, 0x10ffff,
+                    0x110000, 0xffffffff, 0x100000000, -1, 0x7fffffff, 0x3bb,
+                ];
+                let n = match self.rng.below(4) {
+                    0 => self.rng.range(0xd700, 0xe100),
+                    1 => self.rng.range(0, 0x110100),
+                    _ => *self.rng.pick(&NS),
+                };
+                let a = if self.rng.chance(1, 20) {
+                    self.any()
+                } else {
+                    Arg::Int(n.to_string())
+                };
+                self.push(name, vec![a])
+            }
+            "cons" => {
+                // grow a character list (possibly improper) for list->string
+                let c = self.charish();
+                let l = if self.rng.chance(1, 6) { self.charish() } else { self.listish() };
+                self.push(name, vec![c, l])
+            }
+            _ => unreachable!(),
+        }
+    }
+
+    fn c15_case(&mut self) {
+        self.c15_setup();
+        let m = self.rng.range(1, 10);
+        for _ in 0..m {
+            if !self.alive {
+                break;
+            }
+            self.c15_op();
+        }
+    }
+
+    /// the case-mapping oracle for every character that occurs in the arguments or in any
+    /// observed state, closed under to_lowercase / to_uppercase
+    fn case_table(&self) -> String {
+        let mut cps: Vec<u32> = vec![0];
+        for op in &self.ops {
+            for a in &op.args {
+                match a {
+                    Arg::Char(c) => cps.push(*c),
+                    Arg::Int(n) => {
+                        if let Ok(v) = n.parse::<u32>() {
+                            cps.push(v)
+                        }
+                    }
+                    _ => {}
+                }
+            }
+        }
+        for st in &self.steps {
+            // c<cp> atoms and the code points of rendered strings
+            for tok in st.split(|c: char| !(c.is_ascii_digit() || c == 'c')) {
+                let t = tok.trim_start_matches('c');
+                if let Ok(v) = t.parse::<u32>() {
+                    cps.push(v)
+                }
+            }
+        }
+        let mut chars: Vec<char> = cps.into_iter().filter_map(char::from_u32).collect();
+        for _ in 0..2 {
+            let mut more = vec![];
+            for c in &chars {
+                more.extend(c.to_lowercase());
+                more.extend(c.to_uppercase());
+            }
+            chars.extend(more);
+        }
+        chars.sort();
+        chars.dedup();
+        let enc = |it: &mut dyn Iterator<Item = char>| {
+            it.map(|c| (c as u32).to_string()).collect::<Vec<_>>().join(".")
+        };
+        let entries: Vec<String> = chars
+            .iter()
+            .map(|c| {
+                let flags = (c.is_alphabetic() as u32)
+                    | (c.is_numeric() as u32) << 1
+                    | (c.is_whitespace() as u32) << 2
+                    | (c.is_lowercase() as u32) << 3
+                    | (c.is_uppercase() as u32) << 4;
+                format!(
+                    "{}:{}:{}:{}",
+                    *c as u32,
+                    enc(&mut c.to_lowercase()),
+                    enc(&mut c.to_uppercase()),
+                    flags
+                )
+            })
+            .collect();
+        format!("T{}", entries.join(";"))
+    }
+
+    fn line15(&self) -> String {
+        let toks: Vec<String> = self.ops.iter().map(|o| o.token()).collect();
+        let req = format!("{} {}", self.case_table(), toks.join(" "));
+        format!("c15 {}\tok {}\tc15s {}", req, self.steps.join("|"), req)
+    }
+
     fn line(&self, cmd: &str) -> String {
         let toks: Vec<String> = self.ops.iter().map(|o| o.token()).collect();
         let req = toks.join(" ");
@@ -839,24 +1148,57 @@ fn main() {
         Some("c14") => {
             let n: usize = args[2].parse().unwrap();
             let mut rng = Rng::new(seed ^ 0x14);
-            for _ in 0..n {
-                let mut g = Gen::new(&mut rng);
+            let mut sess = Sess::new();
+            for i in 0..n {
+                // a VM serves a batch of sequences (its heap fills up and is collected along
+                // the way); after a panic it is discarded
+                if i % VM_BATCH == 0 {
+                    sess = Sess::new();
+                }
+                sess.reset();
+                let mut g = Gen::new(&mut rng, sess);
                 g.c14_case();
                 writeln!(out, "{}", g.line("c14")).unwrap();
+                sess = if g.alive || !g.steps.last().map(|s| s.starts_with("panic")).unwrap_or(false) {
+                    g.sess
+                } else {
+                    Sess::new()
+                };
+            }
+        }
+        Some("c15") => {
+            let n: usize = args[2].parse().unwrap();
+            let mut rng = Rng::new(seed ^ 0x15);
+            let mut sess = Sess::new();
+            for i in 0..n {
+                if i % VM_BATCH == 0 {
+                    sess = Sess::new();
+                }
+                sess.reset();
+                let mut g = Gen::new(&mut rng, sess);
+                g.c15_case();
+                writeln!(out, "{}", g.line15()).unwrap();
+                sess = if g.alive || !g.steps.last().map(|s| s.starts_with("panic")).unwrap_or(false) {
+                    g.sess
+                } else {
+                    Sess::new()
+                };
             }
         }
         Some("replay") => {
             // store replay c14 op op ...   (prints the same line shape as the generators)
             let cmd = &args[2];
-            let ops: Vec<String> = args[3..].to_vec();
+            let all: Vec<String> = args[3..].to_vec();
+            // a c15 request carries its case table as first token
+            let skip = if all.first().map(|w| w.starts_with('T')).unwrap_or(false) { 1 } else { 0 };
             writeln!(
                 out,
                 "{} {}\t{}\t{}s {}",
                 cmd,
-                ops.join(" "),
-                replay(&ops),
+                all.join(" "),
+                replay(&all[skip..]),
                 cmd,
-                ops.join(" ")
+                all.join(" ")
             )
             .unwrap();
         }
